@@ -157,6 +157,14 @@ def _execute(plan, tr):
             o = Share.parse(s)
             if o.mnemonic() != s:
                 fail("V5", "share_roundtrip", f"Share.parse(s).mnemonic() != s for share {x} of a {sp['k']}-of-{sp['n']} {sp['bits']}-bit split")
+            else:
+                # the custodian's wallet shows / logs / exports the same share object again: every export is the same text
+                try:
+                    again = [o.mnemonic(), (repr(o), o.mnemonic())[1], Share.parse(o.mnemonic()).mnemonic()]
+                except Exception as e:
+                    again = [f"{type(e).__name__}: {e}"]
+                if any(a != s for a in again):
+                    fail("V5", "share_reexport_differs", f"the 2nd/3rd export of one parsed share object (share {x} of a {sp['k']}-of-{sp['n']} {sp['bits']}-bit split) differs from the first")
             if (o.group_threshold, o.group_count, o.exponent, o.share_bit_length) != (sp["k"], sp["n"], sp["exp"], sp["bits"]):
                 fail("V5", "share_header", f"share header {o.group_threshold}-of-{o.group_count} e{o.exponent} {o.share_bit_length} bits differs from the split parameters")
         expected_n = sp["n"] if sp["k"] > 1 else 1
@@ -309,6 +317,16 @@ def _execute(plan, tr):
                     fail("V5", "recover_depends_on_history", f"ShareSet.recover(passphrase) on a reused object differs from a fresh object (passphrase sequence {st['passes']})")
                 if ph is None and a != splits[s]["ent"]:
                     fail("V4", "wrong_secret_reuse", "recover with the right passphrase on a reused object did not return the secret")
+            # the share objects that went through recovery still export their own text
+            tr.oracle("V5_export_after_recover")
+            for o_, t_ in zip(objs, use):
+                try:
+                    if o_.mnemonic() != t_ or o_.mnemonic() != t_:
+                        fail("V5", "share_export_after_recover_differs", "a share object exports another mnemonic after it was used in recover()")
+                        break
+                except Exception as e:
+                    fail("V5", "share_export_after_recover_differs", f"exporting a share object after recover() raised {type(e).__name__}: {e}")
+                    break
         elif op == "subst_all":
             # a custodian's stored share with every possible other word at one position (exhaustive over the 1023 alternatives),
             # optionally with a second/third fixed substitution elsewhere: the RS1024 checksum must reject each of them
